@@ -303,6 +303,7 @@ type State struct {
 	DryLoop  *LoopInfo
 	DryDepth int
 	Dead     bool // path ended inside a simple instruction (e.g. definite panic)
+	AssumedFalse bool
 	Effects  []string
 	ForkRes  Value
 	pendingForks       []*State
@@ -368,6 +369,12 @@ func (s *State) top() *Frame { return s.Frames[len(s.Frames)-1] }
 func (s *State) assume(t T) {
 	if t.Const && t.V == 1 {
 		return
+	}
+	if t.Const && t.V == 0 {
+		// assuming a literal false: the path is infeasible; it is ended and
+		// counted (a vacuity guard reports such paths)
+		s.Dead = true
+		s.AssumedFalse = true
 	}
 	s.PC = append(s.PC, t)
 }
